@@ -195,13 +195,16 @@ pub fn campaign(seed: u64, count: u64, max_ops: u64, cfg: &GenCfg, ops_path: &st
         let version = if r.chance(1, 2) { "3" } else { "4" };
         let pool = name_pool(&mut r, cfg.names_valid_only);
         let mut real = Real::new();
+        // every fifth history runs with the smallest stream buffer (named in its `create` line): whole-stream writes
+        // longer than the buffer then go through the buffer-full path (results must not depend on it, C18)
+        let small_buffer = h % 5 == 4;
         let mut model = RefModel::new();
         let n_ops = 1 + r.below(max_ops);
         let mut hash: u64 = 1469598103934665603;
         let mut dead = false;
         for i in 0..=n_ops {
             let line = if i == 0 {
-                format!("create {}", version)
+                if small_buffer { format!("create {} 1024", version) } else { format!("create {}", version) }
             } else if r.below(100) < cfg.reopen_pct {
                 format!("reopen {}", if r.chance(1, 2) { "strict" } else { "permissive" })
             } else if snapdir.is_some() && r.chance(1, 10) {
@@ -298,7 +301,7 @@ pub fn replay(ops_path: &str, impl_path: &str) -> Vec<String> {
                 ["hclose", id] => {
                     open.remove(&id.parse().unwrap());
                 }
-                ["create", _] | ["reopen", _] => open.clear(),
+                ["create", _] | ["create", _, _] | ["reopen", _] => open.clear(),
                 _ => {}
             }
             if observed != "panic" {
